@@ -197,9 +197,16 @@ def run_macro_property(rep, ctx, name, cases, monitor, rule, extra_search=None, 
                 failures.append(dict(case=case_payload(am, engine, cx, events, opts), what=what, signature=sig))
     for d in dis:
         d.pop("am", None)
+    # runs on which the implementation hit the watchdog: the monitor sees them as a single 'special' snapshot
+    for am, engine, cx, events, opts, snaps in stats.get("timed_out_runs", []):
+        evaluations += 1
+        for what, sig in monitor(am, engine, cx, events, [parse_snapshot(s_) for s_ in snaps]):
+            failures.append(dict(case=case_payload(am, engine, cx, events, opts), what=what, signature=sig))
     stats.update(evaluations=evaluations, nontrivial=len(nontrivial))
     rep.coverage.setdefault("components", {})[name] = dict(machines=stats["machines"], runs=stats["runs"],
                                                            skipped_large=stats.get("skipped_large", 0),
+                                                           impl_timeouts=stats.get("impl_timeouts", 0),
+                                                           model_out_of_fuel=stats.get("model_out_of_fuel", 0),
                                                            disagreements=len(dis))
     rep.coverage["evaluations"] = rep.coverage.get("evaluations", 0) + evaluations
     rep.coverage["distinct_nontrivial"] = rep.coverage.get("distinct_nontrivial", 0) + len(nontrivial)
@@ -218,7 +225,11 @@ def replay_macro(payload, monitor=None):
         print("replay: no concrete case in this file; broken:", payload.get("broken"))
         return 1
     am = pickle.loads(base64.b64decode(case["am_b64"]))
-    events = [(e[0], e[1] if isinstance(e[1], str) else tuple(e[1]), e[2]) for e in case["events"]]
+    def _ev(e):
+        if e[0] == "burst":
+            return ("burst", [_ev(x) for x in e[1]])
+        return (e[0], e[1] if isinstance(e[1], str) else tuple(e[1]), e[2])
+    events = [_ev(e) for e in case["events"]]
     cx = {int(k): v for k, v in (case.get("ctx") or {}).items()}
     fn = impl.run_sync if case["engine"] == "sync" else impl.run_async
     o = dict(case.get("opts") or {})
